@@ -85,6 +85,17 @@ func showCompile(f []string) string {
 
 func init() {
 	stages["compile"] = showCompile
+	// glue: the model side answers OK only when the compiled pieces pass glue_ok (coq/Proofs/SqlGlue.v:
+	// neighbouring characters inside and across pieces cannot merge into another token); the
+	// implementation side says whether Compile (no parameters) succeeded
+	stages["glue"] = func(f []string) string {
+		return guard(func() string {
+			if _, err := compileWith(f[:1]); err != nil {
+				return "ERR"
+			}
+			return "OK"
+		})
+	}
 }
 
 func showWalk(f []string) string {
